@@ -2,7 +2,7 @@
 finished (nested: whole nested run over; nothing inside a nested scheduler
 before the nested scheduler's own requirements)"""
 from . import _base
-from .. import monitors
+from .. import monitors, spaces
 
 ID = 'C01'
 RULE = _base.SPACE_TEXT + (
@@ -15,4 +15,25 @@ globals().update(_base.std(monitors.c01))
 
 
 def items(tier, seed):
+    th = tier == 'thorough'
     yield from _base.general(tier)
+    # a nested scheduler that ends abnormally (own timeout, critical job,
+    # forever jobs, slow cancellations against a short shutdown_timeout,
+    # windows with queued jobs) while something requires it
+    aborts = [[('n', 'timeout', 1)], [('n', 'timeout', 1), ('n', 'sdt', 0)],
+              [('x', 'forever', True), ('x', 'dur', 3)],
+              [('x', 'forever', True), ('x', 'dur', 3), ('n', 'sdt', 0)],
+              [('x', 'out', 'raise'), ('x', 'critical', True)]]
+    slow = [[], [('x', 'cdelay', 1), ('y', 'cdelay', 1), ('p', 'cdelay', 1),
+                 ('q', 'cdelay', 1)]]
+    wins = [[], [('n', 'window', 1)], [('m', 'window', 1)]]
+    prod = {'parts': [('mods', {'alts': aborts}), ('mods', {'alts': slow}),
+                      ('mods', {'alts': wins})]}
+    yield from spaces.mk(['nest22', 'nest32'] if th else ['nest22'],
+                         force='product', fargs=prod,
+                         job_open={'dur': [0, 2, 3]}, top_open={},
+                         nest_open={'sdt': [0, 2]}, k=1, bound=2)
+    yield from spaces.mk(['deep3'], force='product', fargs=prod,
+                         job_open={'dur': [2, 3]}, top_open={},
+                         nest_open={'timeout': [1, 2], 'sdt': [0]},
+                         k=1, bound=2)
